@@ -396,6 +396,9 @@ func (w *ssWorld) connect(o ssConnectOpts) bool {
 				buf[j] = pat(0, off+int64(j))
 			}
 			k, err := conn.Write(buf)
+			for j := range buf {
+				buf[j] = 0xEE // the application may reuse its buffer at once
+			}
 			if ending {
 				return
 			}
